@@ -670,10 +670,11 @@ fn b_iphdrs(r: &Rec, i: &mut Info) -> BR<(IpHeaders, u8, Vec<u8>, Vec<u8>)> {
         let xr = r.r("exts").cloned().unwrap_or_else(|| Rec::new("ipv6exts"));
         let (exts, first, last, eb) = b_ipv6exts(&xr, &mut ei)?;
         let ip = r.r("ip").unwrap_or(&empty);
-        let ip2 = ip.clone().sn("plen", (eb.len() + pl) as u64).sn("nh", first as u64);
+        let plen0 = r.has("plen0") && r.n("plen0") == 1;
+        let ip2 = ip.clone().sn("plen", if plen0 { 0 } else { (eb.len() + pl) as u64 }).sn("nh", first as u64);
         let mut hi = Info::default();
         let (h, hb) = b_ipv6(&ip2, &mut hi)?;
-        i.variant = format!("v6:{}", ei.variant);
+        i.variant = format!("v6{}:{}", if plen0 { "(plen0)" } else { "" }, ei.variant);
         i.extremes.extend(hi.extremes);
         i.extremes.extend(ei.extremes);
         i.mutated = ei.mutated;
@@ -1293,7 +1294,7 @@ pub fn build(r: &Rec) -> Result<Built, String> {
         "iphdrs" => {
             let (v, l, e, p) = b_iphdrs(r, &mut i)?;
             // IPv6 with a payload length field of 0: the slice length is used instead (documented)
-            if matches!(v, IpHeaders::Ipv6(..)) && e.len() == 40 && p.is_empty() {
+            if matches!(v, IpHeaders::Ipv6(..)) && ((e.len() == 40 && p.is_empty()) || i.variant.starts_with("v6(plen0)")) {
                 garbage = Garbage::Forbidden;
             }
             suffix = p;
